@@ -1,6 +1,9 @@
 SPECIFICATION Spec
 CONSTANTS
-  Subs <- T_Subs
+  Subs <- Q_Subs
+  Notas = {"scanner", "dec", "hex", "oct", "bin", "mixed"}
+  Subs2 <- T_Subs
+  Notas2 = {"scanner", "mixed"}
   HostClasses <- MCHostClasses
   HostOf <- MCHostOf
   Export = TRUE
